@@ -425,6 +425,11 @@ type endBody struct {
 
 func (b *endBody) Close() error { b.end(); return nil }
 
+// brokenReader: the rest of a response body that never comes.
+type brokenReader struct{}
+
+func (brokenReader) Read([]byte) (int, error) { return 0, io.ErrUnexpectedEOF }
+
 var errBackend = errors.New("sim: backend failure")
 
 // dialTimeout is what package net returns when a backend does not answer its SYNs: a timeout
@@ -549,6 +554,14 @@ func (t *simRT) RoundTrip(req *http.Request) (resp *http.Response, err error) {
 	}
 	rq.servedBy = t.idx
 	body := fmt.Sprintf("backend%d:%s:%d", t.idx, id, len(att.body))
+	if outcome == "cutbody" {
+		// the backend answers and dies in the middle of its body: the client's response is cut
+		// short too; nothing of this is a failed attempt
+		c.Fault("backend-response-breaks-off")
+		return &http.Response{StatusCode: 200, Proto: "HTTP/1.1", ProtoMajor: 1, ProtoMinor: 1,
+			Header: http.Header{"Content-Type": {"text/plain"}, "X-Backend": {fmt.Sprint(t.idx)}}, ContentLength: int64(len(body)),
+			Body: &endBody{Reader: io.MultiReader(strings.NewReader(body[:len(body)/2]), brokenReader{}), end: end}, Request: req}, nil
+	}
 	return &http.Response{StatusCode: 200, Proto: "HTTP/1.1", ProtoMajor: 1, ProtoMinor: 1,
 		Header: http.Header{"Content-Type": {"text/plain"}, "X-Backend": {fmt.Sprint(t.idx)}}, ContentLength: int64(len(body)),
 		Body: &endBody{Reader: strings.NewReader(body), end: end}, Request: req}, nil
@@ -910,7 +923,7 @@ func (r *poolRig) addReq(i int) {
 	if r.mode == "C14" {
 		na := 1 + st.Draw(3)
 		for k := 0; k < na; k++ {
-			q.outcomes = append(q.outcomes, []string{"ok", "ok", "fail", "fail", "failnoread", "panic"}[st.Draw(6)])
+			q.outcomes = append(q.outcomes, []string{"ok", "ok", "fail", "fail", "failnoread", "panic", "cutbody"}[st.Draw(7)])
 		}
 		q.cancel = st.Draw(5) == 0
 	}
@@ -1052,6 +1065,12 @@ func (r *poolRig) onData(q *preq) {
 	}
 	q.done = true
 	q.finished = r.c.Now()
+	if n := len(q.attempts); (err != nil || len(resps) == 0) && n > 0 && q.attempts[n-1].outcome == "cutbody" {
+		// the backend's answer broke off and so does the client's: as it should be
+		q.status = -2
+		r.c.Probe("response-cut-short-with-the-backend's")
+		return
+	}
 	if err != nil || len(resps) == 0 {
 		q.status = -1
 		r.c.Violate(r.mode+"/no-response", "", "request %d: connection ended without a well-formed response (err=%v, %d bytes)", q.id, err, len(q.buf))
